@@ -30,6 +30,7 @@ def obj_fields(rng, nobj, truthy_only=False, cls_of=None):
         "o": (lambda o: {"t": o[0], "v": o[1]})(rng.choice(OPTS[2:] if truthy_only else OPTS)),
         "ref": {"t": "obj", "v": rng.randint(1, nobj)},
         "refs": {"t": "list", "v": [{"t": "obj", "v": rng.randint(1, nobj)} for _ in range(nref)]},
+        "pairs": {"t": "list", "v": [{"t": "tuple", "v": [iv(k) for k in rng.choice(TUPS)]} for _ in range(rng.randint(0, 2))]},
     }
 
 
@@ -51,6 +52,7 @@ def covering_world(nobj=9, cls="A"):
             "o": {"t": OPTS[k % 3][0], "v": OPTS[k % 3][1]},
             "ref": {"t": "obj", "v": (k * 2 + 1) % nobj + 1},
             "refs": {"t": "list", "v": [{"t": "obj", "v": (k + j) % nobj + 1} for j in range(k % 3)]},
+            "pairs": {"t": "list", "v": [{"t": "tuple", "v": [iv(j) for j in TUPS[(k + j2) % len(TUPS)]]} for j2 in range(k % 3)]},
         }})
     return {"objs": objs}
 
